@@ -92,7 +92,8 @@ def make_shell_classes(api):
 class Mole:
     """Stub of pyscf.gto.mole.Mole: exactly the three attributes from_pyscf reads."""
 
-    def __init__(self, atoms, basis, cart, coord_form="list", row_form="list", kappa=False):
+    def __init__(self, atoms, basis, cart, coord_form="list", row_form="list", kappa=False, unit="angstrom"):
+        self.unit = unit  # as on a real Mole: the unit of the *input*; _atom is always in Bohr
         conv = {"list": list, "tuple": tuple, "array": lambda x: np.array(x, dtype=float)}[coord_form]
         rconv = {"list": list, "tuple": tuple}[row_form]
         self._atom = [(sym, conv(xyz)) for sym, xyz in atoms]
@@ -388,6 +389,23 @@ def r_new_shell(w, op):
     return b
 
 
+def r_copy_shell(w, op):
+    """The user duplicates a shell with copy.copy / copy.deepcopy (a shallow copy shares every array,
+    including the cached ``norm_cont``)."""
+    import copy
+
+    if not w.shells:
+        return Bound("W", "copy_shell", skip="no shell")
+    src = w.shells[op["sd"] % len(w.shells)]
+    dup = copy.deepcopy(src.obj) if op.get("deep") else copy.copy(src.obj)
+    w.probe("shell_copied_deep" if op.get("deep") else "shell_copied_shallow")
+
+    def post(_):
+        w.shells.append(Entry(dup, meta=dict(src.meta)))
+
+    return Bound("W", "copy_shell", call=lambda: None, post=post)
+
+
 def r_new_container(w, op):
     w.default_shell()
     members = [w.shells[d % len(w.shells)].obj for d in op["members"]]
@@ -404,16 +422,23 @@ def r_new_container(w, op):
 def r_write_file(w, op):
     spec = op["spec"]
     ext = "nw" if spec["fmt"] == "nwchem" else "gbs"
+    keep_mtime = False
     if op["new"] or not w.paths:
         path = "/sim/basis%d.%s" % (len(w.paths), ext)
         w.paths.append(path)
     else:
         path = w.paths[op["pathd"] % len(w.paths)]
         w.probe("file_overwritten")
+        if op.get("tweak") is not None and path in w.file_specs:
+            tw = bswriter.tweak_same_length(w.file_specs[path], op["tweak"])
+            if tw is not None and len(bswriter.render(tw)) == len(bswriter.render(w.file_specs[path])):
+                spec = tw
+                keep_mtime = True
+                w.probe("same_length_revision_with_old_mtime")
     text = bswriter.render(spec)
 
     def post(_):
-        w.fs.write(path, text)
+        w.fs.write(path, text, keep_mtime=keep_mtime)
         w.file_specs[path] = spec
 
     return Bound("W", "write_file", call=lambda: None, post=post)
@@ -595,7 +620,8 @@ def r_make_contr(w, op):
 
 
 def r_new_mole(w, op):
-    m = Mole(op["atoms"], op["basis"], op["cart"], op.get("coord_form", "list"), op.get("row_form", "list"))
+    m = Mole(op["atoms"], op["basis"], op["cart"], op.get("coord_form", "list"), op.get("row_form", "list"),
+             unit=op.get("unit", "angstrom"))
 
     def post(_):
         w.moles.append(Entry(m))
@@ -1411,6 +1437,7 @@ RESOLVERS = {
     "new_coords": r_new_coords,
     "new_shell": r_new_shell,
     "ctor": r_new_shell,
+    "copy_shell": r_copy_shell,
     "new_container": r_new_container,
     "write_file": r_write_file,
     "parse": r_parse,
